@@ -174,3 +174,62 @@ pub proof fn lemma_zigzag(value: i32)
     assert(value < 0 ==> z == ((-(value + 1)) as u32) * 2 + 1) by (bit_vector)
         requires z == ((value << 1) ^ (value >> 31)) as u32;
 }
+
+// ---- reference varint reader (lenient exactly as DESIGN 4.5: over-long forms accepted, on
+// ---- a fifth byte the continuation bit and bits 4-6 are ignored).  `unleb_used` is the
+// ---- number of bytes the reader moves over, also when the input ends early.
+pub open spec fn cont(b: u8) -> bool {
+    b & 0x80 != 0
+}
+
+pub open spec fn unleb_used(s: Seq<u8>) -> nat {
+    if s.len() < 1 { 0 }
+    else if !cont(s[0]) || s.len() < 2 { 1 }
+    else if !cont(s[1]) || s.len() < 3 { 2 }
+    else if !cont(s[2]) || s.len() < 4 { 3 }
+    else if !cont(s[3]) || s.len() < 5 { 4 }
+    else { 5 }
+}
+
+pub open spec fn unleb_complete(s: Seq<u8>) -> bool {
+    let n = unleb_used(s);
+    n >= 1 && (n == 5 || !cont(s[n - 1]))
+}
+
+pub open spec fn grp(s: Seq<u8>, j: int) -> u32 {
+    (s[j] & 0x7F) as u32
+}
+
+pub open spec fn unleb_val(s: Seq<u8>) -> u32 {
+    let n = unleb_used(s);
+    if n <= 1 { grp(s, 0) }
+    else if n == 2 { grp(s, 0) | (grp(s, 1) << 7) }
+    else if n == 3 { grp(s, 0) | (grp(s, 1) << 7) | (grp(s, 2) << 14) }
+    else if n == 4 { grp(s, 0) | (grp(s, 1) << 7) | (grp(s, 2) << 14) | (grp(s, 3) << 21) }
+    else { grp(s, 0) | (grp(s, 1) << 7) | (grp(s, 2) << 14) | (grp(s, 3) << 21) | (grp(s, 4) << 28) }
+}
+
+pub open spec fn unleb_res(s: Seq<u8>) -> Result<u32> {
+    if unleb_complete(s) { Ok(unleb_val(s)) } else { Err(Error::InputEndedUnexpectedly) }
+}
+
+pub open spec fn unvar_i32_res(s: Seq<u8>) -> Result<i32> {
+    match unleb_res(s) {
+        Ok(u) => Ok(unzz(u as nat) as i32),
+        Err(e) => Err(e),
+    }
+}
+
+pub proof fn lemma_unzigzag(r: u32)
+    ensures
+        (r & 1) <= 1,
+        (((r >> 1) ^ ((-((r & 1) as i32)) as u32)) as i32) as int == unzz(r as nat),
+{
+    assert((r & 1) <= 1) by (bit_vector);
+    let x = (((r >> 1) ^ ((-((r & 1) as i32)) as u32)) as i32);
+    assert(r % 2 == 0 ==> x == (r / 2) as i32) by (bit_vector)
+        requires x == (((r >> 1) ^ ((-((r & 1) as i32)) as u32)) as i32);
+    assert(r % 2 == 1 ==> x == -(((r / 2) as i32)) - 1) by (bit_vector)
+        requires x == (((r >> 1) ^ ((-((r & 1) as i32)) as u32)) as i32);
+    assert(r / 2 <= 0x7FFF_FFFF);
+}
